@@ -497,6 +497,8 @@ def rule_x(repo, run):
     from checks import c15
     from sa.report import import_rules
     import_rules(run, R, c15, repo, {"C15.R6"}, only=lambda c: c.startswith("ast.PromoteWrap"))
+    # ... and the declaration's own options are merged before its flags are read (C15.R8)
+    import_rules(run, R, c15, repo, {"C15.R8"}, only=lambda c: c.endswith(":wrap-after-options"))
 
 
 def rule_r8(repo, run):
